@@ -504,4 +504,273 @@ theorem other_list_kept (a : Arena) (e1 : Eull) (full : List Block) (la : Nat) (
   intro x hx
   exact extendLoop_footprint _ e2 a buf x (owned_lt_len a e1 full la ld g x hx) (hdisj x hx)
 
+/-! ### all the lists of the writer at once -/
+
+abbrev View := Option (List Block × Nat × List Nat)
+
+def OwnedV (e : Eull) : View → Nat → Prop
+  | none, _ => False
+  | some (full, la, _), x => Owned e full la x
+
+def RepV (a : Arena) (e : Eull) : View → List Nat → Prop
+  | none, bs => e = Eull.default ∧ bs = []
+  | some (full, la, ld), bs => Good a e full la ld ∧ bs = bytesOf full ld
+
+theorem repV_rep (a : Arena) (e : Eull) (v : View) (bs : List Nat) (h : RepV a e v bs) : Rep a e bs := by
+  cases v with
+  | none => exact Or.inl h
+  | some w => obtain ⟨full, la, ld⟩ := w; exact Or.inr ⟨full, la, ld, h⟩
+
+theorem inFull_snoc (full : List Block) (la : Nat) (ld : List Nat) (x : Nat)
+    (h : inFull (full ++ [(la, ld)]) x) : inFull full x ∨ (la ≤ x ∧ x < la + ld.length + 4) := by
+  obtain ⟨p, hp, h1, h2⟩ := h
+  rcases List.mem_append.mp hp with hp | hp
+  · exact Or.inl ⟨p, hp, h1, h2⟩
+  · simp at hp; subst hp; exact Or.inr ⟨h1, h2⟩
+
+theorem pre_view (e : Eull) (a : Arena) (v : View) (bs : List Nat) (h : RepV a e v bs)
+    (hfit : (pre e a).2.len ≤ 2 ^ 32) :
+    ∃ full la ld, Good (pre e a).2 (pre e a).1 full la ld ∧ bs = bytesOf full ld ∧
+      0 < (pre e a).1.remainingCap ∧
+      ∀ x, Owned (pre e a).1 full la x → OwnedV e v x ∨ a.len ≤ x := by
+  cases v with
+  | none =>
+    obtain ⟨rfl, rfl⟩ := h
+    have h0 : Eull.default.remainingCap = 0 := rfl
+    have hg := good_firstBlock a
+    have hge := (allocate_ge a (blockSize (Eull.default.blockNum + 1) + ADDR_SIZE)).1
+    unfold pre
+    simp only [h0, if_true]
+    refine ⟨[], _, [], hg, rfl, blockSize_pos _, fun x hx => Or.inr ?_⟩
+    rcases hx with ⟨p, hp, _⟩ | hx
+    · simp at hp
+    · omega
+  | some w =>
+    obtain ⟨full, la, ld⟩ := w
+    obtain ⟨g, rfl⟩ := h
+    by_cases h0 : e.remainingCap = 0
+    · have hp : pre e a = ensureCapacity { e with blockNum := e.blockNum + 1 } a (blockSize (e.blockNum + 1)) := by
+        unfold pre; simp [h0]
+      rw [hp] at hfit ⊢
+      have hfit' : (a.allocate (blockSize (e.blockNum + 1) + ADDR_SIZE)).1.len ≤ 2 ^ 32 := by
+        unfold ensureCapacity at hfit
+        simp only [g.head] at hfit
+        rw [write_len] at hfit
+        exact hfit
+      have hge := (allocate_ge a (blockSize (e.blockNum + 1) + ADDR_SIZE)).1
+      have hcap := g.cap
+      refine ⟨_, _, [], good_newBlock a e full la ld g h0 hfit', (bytesOf_snoc full la ld).symm, blockSize_pos _, ?_⟩
+      intro x hx
+      rcases hx with hx | hx
+      · rcases inFull_snoc full la ld x hx with h' | h'
+        · exact Or.inl (Or.inl h')
+        · exact Or.inl (Or.inr ⟨h'.1, by omega⟩)
+      · exact Or.inr (by omega)
+    · have hp : pre e a = (e, a) := by unfold pre; simp [h0]
+      rw [hp]
+      exact ⟨full, la, ld, g, rfl, Nat.pos_of_ne_zero h0, fun x hx => Or.inl hx⟩
+
+/-- writing appends, and the list only grows into freshly allocated space -/
+theorem extendLoop_view (fuel : Nat) : ∀ (e : Eull) (a : Arena) (buf bs : List Nat) (v : View),
+    RepV a e v bs → buf ≠ [] → buf.length ≤ fuel → (extendLoop fuel e a buf).2.len ≤ 2 ^ 32 →
+    ∃ v', RepV (extendLoop fuel e a buf).2 (extendLoop fuel e a buf).1 v' (bs ++ buf) ∧
+      ∀ x, OwnedV (extendLoop fuel e a buf).1 v' x → OwnedV e v x ∨ a.len ≤ x := by
+  induction fuel with
+  | zero =>
+    intro e a buf bs v _ hne hl _
+    exact absurd (List.length_eq_zero_iff.mp (by omega)) hne
+  | succ f ih =>
+    intro e a buf bs v h hne hl hfit
+    cases buf with
+    | nil => exact absurd rfl hne
+    | cons b rest =>
+      rw [extendLoop_cons] at hfit ⊢
+      generalize hn : min (b :: rest).length (pre e a).1.remainingCap = n at *
+      have hmono := extendLoop_len f
+        { (pre e a).1 with remainingCap := (pre e a).1.remainingCap - n, tail := (pre e a).1.tail + n }
+        ((pre e a).2.write (pre e a).1.tail ((b :: rest).take n)) ((b :: rest).drop n)
+      rw [write_len] at hmono
+      obtain ⟨full, la, ld, g, hbs, hpos, hown⟩ := pre_view e a v bs h (by omega)
+      have hplen := pre_len e a
+      have hn1 : 1 ≤ n := by rw [← hn]; simp only [List.length_cons]; omega
+      have hnle : n ≤ (pre e a).1.remainingCap := by rw [← hn]; exact Nat.min_le_right _ _
+      have hnlen : n ≤ (b :: rest).length := by rw [← hn]; exact Nat.min_le_left _ _
+      have htl : ((b :: rest).take n).length = n := by rw [List.length_take]; omega
+      have gw := good_write (pre e a).2 (pre e a).1 full la ld ((b :: rest).take n) g (by rw [htl]; exact hnle)
+      rw [htl] at gw
+      have hrep : RepV ((pre e a).2.write (pre e a).1.tail ((b :: rest).take n))
+          { (pre e a).1 with remainingCap := (pre e a).1.remainingCap - n, tail := (pre e a).1.tail + n }
+          (some (full, la, ld ++ (b :: rest).take n)) (bs ++ (b :: rest).take n) :=
+        ⟨gw, by rw [hbs]; simp [bytesOf]⟩
+      by_cases hrest : (b :: rest).drop n = []
+      · -- everything written
+        have hfuel0 : ∀ f' e' a', extendLoop f' e' a' [] = (e', a') := by
+          intro f' e' a'; cases f' <;> rfl
+        rw [hrest, hfuel0]
+        refine ⟨some (full, la, ld ++ (b :: rest).take n), ?_, fun x hx => hown x hx⟩
+        have : (b :: rest).take n = b :: rest := by
+          have := List.take_append_drop n (b :: rest)
+          rw [hrest, List.append_nil] at this
+          exact this
+        rw [this] at hrep ⊢
+        exact hrep
+      · obtain ⟨v', hv', hown'⟩ := ih _ _ ((b :: rest).drop n) _ _ hrep hrest
+          (by rw [List.length_drop]; simp only [List.length_cons] at hl ⊢; omega) hfit
+        rw [List.append_assoc, List.take_append_drop] at hv'
+        refine ⟨v', hv', fun x hx => ?_⟩
+        rcases hown' x hx with h' | h'
+        · exact hown x h'
+        · rw [write_len] at h'; exact Or.inr (by omega)
+
+theorem extendFromSlice_nil (e : Eull) (a : Arena) : extendFromSlice e a [] = (e, a) := rfl
+
+/-- the invariant of the whole writer: every list holds its bytes, and no two lists share an address -/
+def Inv (a : Arena) (es : List Eull) (vs : Nat → View) (bss : Nat → List Nat) : Prop :=
+  (∀ j, j < es.length → RepV a (es.getD j Eull.default) (vs j) (bss j)) ∧
+  (∀ j k, j < es.length → k < es.length → j ≠ k →
+    ∀ x, OwnedV (es.getD j Eull.default) (vs j) x → ¬ OwnedV (es.getD k Eull.default) (vs k) x)
+
+theorem getD_set (es : List Eull) (i j : Nat) (e' : Eull) (hi : i < es.length) :
+    (es.set i e').getD j Eull.default = if j = i then e' else es.getD j Eull.default := by
+  simp only [List.getD_eq_getElem?_getD, List.getElem?_set]
+  by_cases h : i = j
+  · subst h; simp [hi]
+  · have h' : ¬ j = i := fun e => h e.symm
+    simp [h, h']
+
+theorem ownedV_lt (a : Arena) (e : Eull) (v : View) (bs : List Nat) (h : RepV a e v bs) (x : Nat)
+    (hx : OwnedV e v x) : x < a.len := by
+  cases v with
+  | none => exact absurd hx (by simp [OwnedV])
+  | some w => obtain ⟨full, la, ld⟩ := w; exact owned_lt_len a e full la ld h.1 x hx
+
+theorem free_ownedV (a : Arena) (e : Eull) (v : View) (bs : List Nat) (h : RepV a e v bs) (x : Nat)
+    (hx : Free e x) : OwnedV e v x := by
+  cases v with
+  | none =>
+    obtain ⟨rfl, _⟩ := h
+    unfold Free at hx
+    simp [Eull.default] at hx
+  | some w => obtain ⟨full, la, ld⟩ := w; exact free_owned a e full la ld h.1 x hx
+
+theorem repV_congr (a a' : Arena) (e : Eull) (v : View) (bs : List Nat)
+    (hm : ∀ x, OwnedV e v x → a'.mem x = a.mem x) (hl : a.len ≤ a'.len) (h : RepV a e v bs) :
+    RepV a' e v bs := by
+  cases v with
+  | none => exact h
+  | some w => obtain ⟨full, la, ld⟩ := w; exact ⟨good_congr a a' e full la ld hm hl h.1, h.2⟩
+
+/-- one write of the writer keeps the invariant -/
+theorem inv_step (a : Arena) (es : List Eull) (vs : Nat → View) (bss : Nat → List Nat) (i : Nat)
+    (buf : List Nat) (hi : i < es.length) (h : Inv a es vs bss)
+    (hfit : (extendFromSlice (es.getD i Eull.default) a buf).2.len ≤ 2 ^ 32) :
+    ∃ vs', Inv (extendFromSlice (es.getD i Eull.default) a buf).2
+      (es.set i (extendFromSlice (es.getD i Eull.default) a buf).1) vs'
+      (fun j => if j = i then bss j ++ buf else bss j) := by
+  by_cases hbuf : buf = []
+  · subst hbuf
+    rw [extendFromSlice_nil]
+    refine ⟨vs, ?_, ?_⟩
+    · intro j hj
+      rw [List.length_set] at hj
+      rw [getD_set es i j _ hi]
+      by_cases hji : j = i
+      · subst hji; simpa using h.1 j hj
+      · simpa [hji] using h.1 j hj
+    · intro j k hj hk hjk x
+      rw [List.length_set] at hj hk
+      rw [getD_set es i j _ hi, getD_set es i k _ hi]
+      have := h.2 j k hj hk hjk x
+      by_cases hji : j = i <;> by_cases hki : k = i <;> simp_all
+  · obtain ⟨v', hv', hown⟩ := extendLoop_view buf.length (es.getD i Eull.default) a buf (bss i) (vs i)
+      (h.1 i hi) hbuf (Nat.le_refl _) hfit
+    have hlen := extendLoop_len buf.length (es.getD i Eull.default) a buf
+    -- the other lists keep their bytes: the write's footprint is inside list `i`
+    have hother : ∀ j, j < es.length → j ≠ i →
+        RepV (extendFromSlice (es.getD i Eull.default) a buf).2 (es.getD j Eull.default) (vs j) (bss j) := by
+      intro j hj hji
+      apply repV_congr a _ _ _ _ _ hlen (h.1 j hj)
+      intro x hx
+      apply extendLoop_footprint _ _ a buf x (ownedV_lt a _ _ _ (h.1 j hj) x hx)
+      intro hf
+      exact h.2 j i hj hi hji x hx (free_ownedV a _ _ _ (h.1 i hi) x hf)
+    refine ⟨fun j => if j = i then v' else vs j, ?_, ?_⟩
+    · intro j hj
+      rw [List.length_set] at hj
+      rw [getD_set es i j _ hi]
+      by_cases hji : j = i
+      · subst hji; simpa [extendFromSlice] using hv'
+      · simpa [hji] using hother j hj hji
+    · intro j k hj hk hjk x
+      rw [List.length_set] at hj hk
+      rw [getD_set es i j _ hi, getD_set es i k _ hi]
+      by_cases hji : j = i
+      · subst hji
+        have hki : k ≠ j := fun e => hjk e.symm
+        simp only [if_true, hki, if_false]
+        intro hx hxk
+        have hlt := ownedV_lt a _ _ _ (h.1 k hk) x hxk
+        rcases hown x hx with h' | h'
+        · exact h.2 j k hj hk hjk x h' hxk
+        · omega
+      · by_cases hki : k = i
+        · subst hki
+          simp only [hji, if_false, if_true]
+          intro hx hxk
+          have hlt := ownedV_lt a _ _ _ (h.1 j hj) x hx
+          rcases hown x hxk with h' | h'
+          · exact h.2 j k hj hk hjk x hx h'
+          · omega
+        · simp only [hji, hki, if_false]
+          exact h.2 j k hj hk hjk x
+
+theorem runWrites_len : ∀ (ws : List (Nat × List Nat)) (es : List Eull) (a : Arena),
+    a.len ≤ (runWrites es a ws).2.len := by
+  intro ws
+  induction ws with
+  | nil => intro _ _; exact Nat.le_refl _
+  | cons w ws ih =>
+    intro es a
+    obtain ⟨i, buf⟩ := w
+    simp only [runWrites]
+    have h1 := extendLoop_len buf.length (es.getD i Eull.default) a buf
+    have h2 := ih (es.set i (extendFromSlice (es.getD i Eull.default) a buf).1)
+      (extendFromSlice (es.getD i Eull.default) a buf).2
+    unfold extendFromSlice at h2 ⊢
+    omega
+
+/-- **the whole writer**: any interleaving of writes to the lists of one arena keeps every list's bytes -/
+theorem runWrites_inv : ∀ (ws : List (Nat × List Nat)) (es : List Eull) (a : Arena) (vs : Nat → View)
+    (bss : Nat → List Nat), Inv a es vs bss → (∀ w ∈ ws, w.1 < es.length) →
+    (runWrites es a ws).2.len ≤ 2 ^ 32 →
+    (runWrites es a ws).1.length = es.length ∧
+    ∃ vs', Inv (runWrites es a ws).2 (runWrites es a ws).1 vs'
+      (fun j => bss j ++ (ws.filter (fun w => w.1 = j)).flatMap (·.2)) := by
+  intro ws
+  induction ws with
+  | nil =>
+    intro es a vs bss h _ _
+    exact ⟨rfl, vs, by simpa [runWrites] using h⟩
+  | cons w ws ih =>
+    intro es a vs bss h hw hfit
+    obtain ⟨i, buf⟩ := w
+    have hi : i < es.length := hw (i, buf) (by simp)
+    simp only [runWrites] at hfit ⊢
+    have hmono := runWrites_len ws (es.set i (extendFromSlice (es.getD i Eull.default) a buf).1)
+      (extendFromSlice (es.getD i Eull.default) a buf).2
+    obtain ⟨vs1, h1⟩ := inv_step a es vs bss i buf hi h (by omega)
+    obtain ⟨hl, vs2, h2⟩ := ih _ _ vs1 _ h1
+      (fun w hw' => by rw [List.length_set]; exact hw w (List.mem_cons_of_mem _ hw')) hfit
+    refine ⟨by rw [hl, List.length_set], vs2, ?_⟩
+    have hfun : (fun j => (if j = i then bss j ++ buf else bss j) ++
+          (ws.filter (fun w => w.1 = j)).flatMap (·.2)) =
+        (fun j => bss j ++ (((i, buf) :: ws).filter (fun w => w.1 = j)).flatMap (·.2)) := by
+      funext j
+      by_cases hji : j = i
+      · subst hji; simp
+      · have : ¬ i = j := fun e => hji e.symm
+        simp [hji, this]
+    rw [← hfun]
+    exact h2
+
 end TantivyModel.Expull
